@@ -402,3 +402,29 @@ def accum_wfsa(desc, R="Float"):
         return v if isinstance(v, bool) else frac_str(v)
     return {"start": [[_j.loads(k), w(v)] for k, v in c["start"]], "stop": [[_j.loads(k), w(v)] for k, v in c["stop"]],
             "arcs": [_j.loads(k) + [w(v)] for k, v in c["arcs"]]}
+
+
+def re_batch(items, timeout=600, jobs=8):
+    """verified regex matcher (Mathlib rmatch) through `lake env lean --run ReDriver.lean`"""
+    if not items:
+        return []
+    from concurrent.futures import ThreadPoolExecutor
+    k = max(1, min(jobs, len(items) // 8 or 1))
+    idx = [list(range(i, len(items), k)) for i in range(k)]
+
+    def chunk(ix):
+        data = "\n".join(json.dumps(items[i], ensure_ascii=False) for i in ix) + "\n"
+        p = subprocess.run(["lake", "env", "lean", "--run", "ReDriver.lean"], cwd=LEAN, input=data.encode(), stdout=subprocess.PIPE, stderr=subprocess.PIPE, timeout=timeout)
+        lines = p.stdout.decode().splitlines()
+        if p.returncode != 0 or len(lines) != len(ix):
+            raise DriverError(f"regex driver: exit {p.returncode}, {len(lines)}/{len(ix)} lines: {p.stderr.decode()[-300:]}")
+        return [json.loads(l) for l in lines]
+    out = [None] * len(items)
+    try:
+        with ThreadPoolExecutor(max_workers=k) as ex:
+            for ix, f in [(ix, ex.submit(chunk, ix)) for ix in idx if ix]:
+                for i, r in zip(ix, f.result()):
+                    out[i] = r
+    except subprocess.TimeoutExpired:
+        raise DriverError("regex driver timed out")
+    return out
